@@ -523,6 +523,57 @@ def do_check(lane, seed, tier, a):
     return 0
 
 
+KEY_SITES = [
+    ("printcore.py", "self.resendfrom = lineno + 1"), ("printcore.py", "lineno = self.resendfrom"),
+    ("printcore.py", "self.resendfrom = toresend"), ("printcore.py", "self.clear = False"),
+    ("printcore.py", "if self.resendfrom < self.lineno and self.resendfrom > -1:"),
+    ("printcore.py", "self.lineno += 1"), ("printcore.py", "self.printing = False"),
+    ("printcore.py", "self.resendfrom = -1"),
+    ("printrun_writer.py", "self._ack_event.clear()"), ("printrun_writer.py", "self._device.send(command)"),
+    ("printrun_writer.py", "self._ack_event.wait()"), ("printrun_writer.py", "self._device_error = DeviceError(error_message)"),
+    ("printrun_writer.py", "self._parse_message(message)"), ("printrun_writer.py", "self._current_params[key] = value"),
+    ("printrun_writer.py", "exception = self._device_error"), ("printrun_writer.py", "while self.has_pending_operations:"),
+    ("device.py", "self._read_buffer.append(chunk)"), ("device.py", "self._read_buffer = []"),
+]
+
+
+def _source_index():
+    import linecache
+    from sim import shims
+    out = {}
+    for mod in shims.repo_modules().values():
+        f = getattr(mod, "__file__", None)
+        if f:
+            out[os.path.basename(f)] = f
+    return out, linecache
+
+
+def annotate_locs(items):
+    files, linecache = _source_index()
+    out = {}
+    for loc, n in items:
+        base, _, ln = loc.partition(":")
+        text = ""
+        if base in files and ln.isdigit():
+            text = linecache.getline(files[base], int(ln)).strip()
+        out["%s  %s" % (loc, text[:70])] = n
+    return out
+
+
+def key_sites(locs):
+    """How often a thread was pre-empted (switched away from or stalled) exactly at
+    statements the properties' races hinge on - looked up by source text, not line number."""
+    files, linecache = _source_index()
+    out = {}
+    for base, text in KEY_SITES:
+        f = files.get(base)
+        if not f:
+            continue
+        lines = [i + 1 for i, l in enumerate(linecache.getlines(f)) if l.strip() == text]
+        out["%s: %s" % (base, text)] = sum(locs.get("%s:%d" % (base, ln), 0) for ln in lines)
+    return out
+
+
 def write_evidence(lane, seed, tier, total, per_sub, st, pinned, known_lines, out_viol, errors,
                    wall, ev_extra, extra_cov):
     runs = total["runs"]
@@ -540,7 +591,8 @@ def write_evidence(lane, seed, tier, total, per_sub, st, pinned, known_lines, ou
         "distinct_schedule_digests": len(total["sched_digests"]),
         "distinct_switch_pairs": len(total["pairs"]),
         "distinct_preempted_source_lines": len(total["locs"]),
-        "most_preempted_source_lines": dict(sorted(total["locs"].items(), key=lambda kv: -kv[1])[:25]),
+        "most_preempted_source_lines": annotate_locs(sorted(total["locs"].items(), key=lambda kv: -kv[1])[:30]),
+        "preemptions_at_key_sites": key_sites(total["locs"]),
         "fault_and_probe_counts_fired": dict(sorted(total["probes"].items())),
         "thread_stalls_injected": total["stalls"],
         "run_outcomes": total["aborts"],
